@@ -58,6 +58,34 @@ Definition vec_oracle (ps : list Z) (vs outs : list (list Z)) (rb ab off keep sg
   min_verdict (map (fun q => coeff_ok rb ab off keep sgn need_bal (fst (fst q)) (snd (fst q)) (snd q))
                    (combine (combine al r0l) r1l)).
 
+(* the same statement for the i128 accumulators of the NTT120 family (big normalisers run on backends 3, 4): the
+   documented headroom is 2^126 instead of 2^60; the value computation is exact integer arithmetic either way *)
+Definition all_hr_h (h : Z) (l : list Z) : bool := forallb (fun x => Z.abs x <=? 2 ^ h) l.
+Definition coeff_ok_h (h rb ab off keep sgn : Z) (need_bal : bool) (a r0 out : list Z) : Z :=
+  if negb (all_hr_h h a && (all_hr r0 || (keep =? 0))) then 2 else
+  let rsz := Z.of_nat (length out) in let asz := Z.of_nat (length a) in
+  let P := rsz * rb + asz * ab + Z.abs off + 2 in
+  let A := val_scaled (P + off) ab a in
+  let R0 := val_scaled P rb r0 in
+  let R := val_scaled P rb out in
+  let D := tor_abs P (R - keep * R0 - sgn * A) in
+  let unit := 2 ^ (P - rsz * rb) in
+  let exact := (asz * ab - off <=? rsz * rb) in
+  ob ((D <=? unit) && (negb exact || (D =? 0)) && (negb need_bal || all_bal rb out)).
+Definition vec_oracle_h (h : Z) (ps : list Z) (vs outs : list (list Z)) (rb ab off keep sgn : Z) (need_bal : bool) : Z :=
+  let rs := rshape ps in let as_ := ashape ps in
+  let res0 := v vs 0 in let a := v vs 1 in let res1 := v outs 0 in
+  if negb (Nat.eqb (length res0) (length res1)) then 0 else
+  let al := transpose (s_n rs) (col_limbs (s_n as_) (s_cols as_) (s_size as_) a (s_col as_)) in
+  let r0l := transpose (s_n rs) (col_limbs (s_n rs) (s_cols rs) (s_size rs) res0 (s_col rs)) in
+  let r1l := transpose (s_n rs) (col_limbs (s_n rs) (s_cols rs) (s_size rs) res1 (s_col rs)) in
+  min_verdict (map (fun q => coeff_ok_h h rb ab off keep sgn need_bal (fst (fst q)) (snd (fst q)) (snd q))
+                   (combine (combine al r0l) r1l)).
+(* big normalisers: which headroom applies *)
+Definition big_oracle (ps : list Z) (vs outs : list (list Z)) (keep sgn : Z) (need_bal : bool) : Z :=
+  if 3 <=? p ps 0 then vec_oracle_h 126 ps vs outs (p ps 10) (p ps 11) (p ps 12) keep sgn need_bal
+  else vec_oracle ps vs outs (p ps 10) (p ps 11) (p ps 12) keep sgn need_bal false.
+
 Definition oracle_c08 (code : Z) (ps : list Z) (vs outs : list (list Z)) : Z :=
   let w := 64 in
   match code with
@@ -83,9 +111,9 @@ Definition oracle_c08 (code : Z) (ps : list Z) (vs outs : list (list Z)) : Z :=
   | 8108 => vec_oracle ps vs outs (p ps 10) (p ps 10) (- p ps 11) 0 1 true false
   | 8109 => vec_oracle ps vs outs (p ps 10) (p ps 10) (- p ps 11) 1 1 false false
   | 8110 => vec_oracle ps vs outs (p ps 10) (p ps 10) (- p ps 11) 1 (-1) false false
-  | 8201 => vec_oracle ps vs outs (p ps 10) (p ps 11) (p ps 12) 0 1 (p ps 10 =? p ps 11) false
-  | 8202 => vec_oracle ps vs outs (p ps 10) (p ps 11) (p ps 12) 1 1 false false
-  | 8203 => vec_oracle ps vs outs (p ps 10) (p ps 11) (p ps 12) 1 (-1) false false
-  | 8204 => vec_oracle ps vs outs (p ps 10) (p ps 11) (p ps 12) 0 (-1) false false
+  | 8201 => big_oracle ps vs outs 0 1 (p ps 10 =? p ps 11)
+  | 8202 => big_oracle ps vs outs 1 1 false
+  | 8203 => big_oracle ps vs outs 1 (-1) false
+  | 8204 => big_oracle ps vs outs 0 (-1) false
   | _ => oracle_c08_enc code ps vs outs
   end.
